@@ -86,3 +86,21 @@ Proof.
   rewrite find_all_false; [reflexivity|]. intros r Hr. specialize (H r Hr).
   destruct (fst r <=? ts) eqn:E1; [|reflexivity]. destruct (te <=? snd r) eqn:E2; [|reflexivity]. exfalso. apply H. lia.
 Qed.
+
+(* ---- the length check ---- *)
+
+(* whatever the server sent: a term that came out of a download has exactly the length the plan declared for it *)
+Theorem trim_term_has_declared_length fetched fs ts te ul d :
+  trim_term fetched fs ts te ul = Some d -> lenN d = ul.
+Proof.
+  unfold trim_term. intros H.
+  match type of H with (match ?o with _ => _ end) = _ => destruct o as [x|]; [|discriminate] end.
+  destruct (lenN x =? ul) eqn:E; [|discriminate]. injection H as <-. lia.
+Qed.
+
+Theorem get_one_term_downloaded_has_declared_length infos download ts te ul d :
+  get_one_term None infos download ts te ul = Some d -> lenN d = ul.
+Proof.
+  unfold get_one_term. destruct (te <? ts); [discriminate|]. destruct (pick_fetch infos ts te) as [[fs fe]|]; [|discriminate].
+  apply trim_term_has_declared_length.
+Qed.
